@@ -137,7 +137,7 @@ func RunChildren(run *evid.Run, o ChildOpts) {
 			cmd.Stderr = ef
 			cmd.Env = append(os.Environ(), "GOTRACEBACK=all")
 			if o.Race {
-				cmd.Env = append(cmd.Env, "GORACE=halt_on_error=0 history_size=3 log_path="+racep)
+				cmd.Env = append(cmd.Env, "GORACE=halt_on_error=0 exitcode=0 history_size=3 log_path="+racep)
 			}
 			cmd.Env = append(cmd.Env, o.Env...)
 			if err := cmd.Start(); err != nil {
@@ -181,6 +181,15 @@ func RunChildren(run *evid.Run, o ChildOpts) {
 							run.Violate(run.Prop+"/data-race", det("frames", key), rep, "data race reported by the Go race detector: %s", key)
 						} else {
 							run.Count("race_reports_distinct_out_of_scope", 1)
+							run.Count("race_out_of_scope: "+key, 1)
+							rmu.Lock()
+							if _, ok := run.Extra["race_out_of_scope_example"]; !ok {
+								run.Extra["race_out_of_scope_example"] = clipStr(rep, 3000)
+							}
+							rmu.Unlock()
+							if strings.HasPrefix(key, "non-library") && strings.Contains(rep, "verifharness") {
+								run.Broken("data race inside the harness itself: " + firstFrames(rep))
+							}
 						}
 					}
 				}
@@ -292,4 +301,14 @@ func raceKey(rep string) string {
 		parts = parts[:2]
 	}
 	return strings.Join(parts, " <-> ")
+}
+
+func firstFrames(rep string) string {
+	var out []string
+	for _, m := range frameRe.FindAllStringSubmatch(rep, -1) {
+		if len(out) < 6 {
+			out = append(out, m[1])
+		}
+	}
+	return strings.Join(out, " | ")
 }
